@@ -1,6 +1,7 @@
 import NbioVerif.Model.Rfc6455
 import NbioVerif.Model.WsMask
 import NbioVerif.Model.WsTrunc
+import NbioVerif.Model.WsUp
 import NbioVerif.DrvCommon
 /-! wsdrv: runs the websocket model on the annotated ops of `hws exec` (see harness/cmd/hws/main.go) -/
 open Ws Drv
@@ -100,6 +101,7 @@ structure DS where
   s : S := {}
   dead : Bool := false
   all : List (List UInt8) := []      -- segments of the case, reversed
+  up : Option UpS := none            -- upgrade hand-off case
   -- round trip
   gc : Cfg := ⟨false, false, 0, 0, 32768, true⟩
   c : S := {}
@@ -136,6 +138,24 @@ partial def loop (h : IO.FS.Stream) (d : DS) : IO Unit := do
     let g : Cfg := { enableCompression := comp, writeCompression := comp, msgLimit := (f "limit").toNat!,
                      readLimit := (f "readlimit").toNat!, maxFrame := (f "maxframe").toNat!, isClient := f "role" == "client" }
     IO.println "ok"; loop h { mode := "recv", g }
+  | "C" :: "up" :: _ =>
+    let comp := f "compress" == "1"
+    let g : Cfg := { enableCompression := comp, writeCompression := comp, msgLimit := (f "limit").toNat!,
+                     readLimit := 0, maxFrame := (f "maxframe").toNat!, isClient := true }
+    IO.println "ok"; loop h { mode := "recv", g, up := some {} }
+  | "H" :: sp :: _ =>
+    match d.up with
+    | none => IO.println "bad-op"; loop h d
+    | some u =>
+      let data := bytesOf sp
+      if d.dead then IO.println "dead"; loop h d else
+      let (u', r) := upParse d.g (mkEnv ws "keys" u.s.k.nwrites) u data
+      let d := if u'.upgraded then { d with all := (if u.upgraded then data else (u.head ++ data).drop ((headEnd (u.head ++ data)).getD 0)) :: d.all } else d
+      match r.err with
+      | none => IO.println s!"R ok cache={r.s.cache.length} msglen={msgLen r.s} {showActs r.acts}"; loop h { d with up := some u', s := u'.s }
+      | some er =>
+        IO.println s!"R err={er.code} cache={r.s.cache.length} msglen={msgLen r.s} {showActs r.acts}"
+        loop h { d with up := some u', s := u'.s, dead := true }
   | "C" :: "rt" :: _ =>
     let comp := f "compress" == "1"
     let g : Cfg := { enableCompression := comp, writeCompression := comp, msgLimit := (f "limit").toNat!,
@@ -154,7 +174,7 @@ partial def loop (h : IO.FS.Stream) (d : DS) : IO Unit := do
     if d.mode != "mask" then IO.println "bad-op"; loop h d else
     IO.println s!"R {short (maskFast (unhex key) (bytesOf sp))}"; loop h d
   | "D" :: sp :: _ =>
-    if d.mode != "recv" then IO.println "bad-op"; loop h d else
+    if d.mode != "recv" || d.up.isSome then IO.println "bad-op"; loop h d else
     let data := bytesOf sp
     let d := { d with all := data :: d.all }
     if d.dead then IO.println "dead"; loop h d else
@@ -178,7 +198,8 @@ partial def loop (h : IO.FS.Stream) (d : DS) : IO Unit := do
                                           strict, infl := tinflFn (f "tinfl") }
     let a := Rfc.run (rg true) {} 0 [] fs
     let b := Rfc.run (rg false) {} 0 [] fs
-    IO.println s!"E rfc={showVerdict a.verdict}@{a.at_} len={showVerdict b.verdict}@{b.at_} exp=[{String.intercalate ";" (b.evs.map showEv)}]"
+    let may := match b.may with | some r => r.name | none => "-"
+    IO.println s!"E rfc={showVerdict a.verdict}@{a.at_} len={showVerdict b.verdict}@{b.at_} may={may} exp=[{String.intercalate ";" (b.evs.map showEv)}]"
     loop h d
   | "W" :: side :: typ :: sp :: _ =>
     if d.mode != "rt" then IO.println "bad-op"; loop h d else
@@ -194,7 +215,18 @@ partial def loop (h : IO.FS.Stream) (d : DS) : IO Unit := do
     let (sr1, racts, rerr) := feedSegs gr (mkEnv ws "bkeys" sr.k.nwrites) sr (cutUp wire cuts) []
     let back := writesOf racts
     let pb := if back.isEmpty then (⟨ss1, [], none⟩ : PR) else parse gs (mkEnv ws "rkeys" ss1.k.nwrites) ss1 back
-    IO.println s!"W werr={werr} wire={short wire} recv={showActs racts} rerr={errStr rerr} back={showActs pb.acts} berr={errStr pb.err}"
+    -- the codec law on the observed tables: readAll (inflate (deflate x)) = x
+    let x := bytesOf sp
+    let envS := mkEnv ws "keys" 0
+    let isData := opType typ == 1 || opType typ == 2
+    let codec :=
+      if isData && gs.writeCompression && werr == 0 && (f "infl") != "" then
+        match readAll gr.msgLimit ((envS.deflate x).length * 2) (envS.inflate (envS.deflate x)) with
+        | .ok out => if out == x then "ok" else "bad"
+        | .tooLarge _ => "big"
+        | _ => "bad"
+      else "-"
+    IO.println s!"W werr={werr} wire={short wire} recv={showActs racts} rerr={errStr rerr} back={showActs pb.acts} berr={errStr pb.err} rcache={sr1.cache.length} rmsglen={msgLen sr1} codec={codec}"
     let ss2 := pb.s
     let down := ss2.k.connClosed || sr1.k.connClosed || rerr.isSome || pb.err.isSome
     let ss2 : S := { ss2 with k := { ss2.k with connClosed := down } }
